@@ -6,6 +6,14 @@ Case kinds
   inversion  real aa.Inversion objects (mapping and w-tilde formalism, rectangular mappers + function
              lists): .reconstruction / .reconstruction_dict / .mapped_reconstructed_data_dict /
              .mapped_reconstructed_data with the settings product
+  chol       the Cholesky bookkeeping of fnnls_cholesky (Model/Cholesky.lean): the REAL
+             cholesky_funcs.cholinsertlast / choldeleteindexes / _cholupdate and scipy.linalg.cho_solve /
+             scipy.linalg.cholesky against the model (Float with Float.sqrt, or exact Rat when every root
+             is rational: A = R'R from a dyadic upper-triangular R inserted in R's order): insert sequences
+             followed by delete sets in every position (incl. the last, several at once, unsorted,
+             list / tuple / ndarray), and the functions one at a time on arbitrary triangular arrays.
+             Oracle: U is upper triangular with positive diagonal and U'U equals the principal submatrix
+             A[P][:, P] (exact integer arithmetic on the float output, explicit tolerance).
 The model (Lean, exact rationals) receives the same system (for `inversion`: the F+H and D the
 implementation built — their construction is C04's subject) and returns the exact optimum; solutions are
 compared at 1e-7 of the solution scale (unique optimum of a PD problem => stable), mapped data at 1e-9.
@@ -193,6 +201,112 @@ def diff_vec(cmp: Cmp, impl, model, tol, path):
             return f"{path}[{i}]: impl={float(a)!r} model={float(m)!r} (|Δ|={float(abs(a-m)):.3e}, tol={float(tol):.3e})"
     return None
 
+
+
+# ------------------------------------------------------------------------------------------------
+# Cholesky bookkeeping: exact helpers on float outputs (scaled integers: no gcds)
+# ------------------------------------------------------------------------------------------------
+CHOL_REL = Fraction(1, 10**9)  # model (float) vs implementation (float): relative, widened by cond
+CHOL_ORACLE = Fraction(1, 10**10)  # |U'U - A_PP| <= CHOL_ORACLE * max|A_PP| * (ops + 1)
+
+
+def _p2(den):
+    k = den.bit_length() - 1
+    if den != 1 << k:
+        raise ValueError("not a dyadic rational")
+    return k
+
+
+def scaled_ints(rows):
+    """rows of dyadic rationals (Fractions / "p/q" strings of doubles) -> (rows of ints, s) with value = int / 2^s"""
+    fr = [[F(x) for x in r] for r in rows]
+    s = max((_p2(x.denominator) for r in fr for x in r), default=0)
+    return [[x.numerator << (s - _p2(x.denominator)) for x in r] for r in fr], s
+
+
+def gram_exact(U):
+    """(G, s2): G[i][j] = sum_k U[k][i] U[k][j] as integers at scale 2^-s2, exactly"""
+    Ui, s = scaled_ints(U)
+    n = len(Ui)
+    cols = [[Ui[k][i] for k in range(n)] for i in range(n)]
+    return [[sum(a * b for a, b in zip(cols[i], cols[j])) for j in range(n)] for i in range(n)], 2 * s
+
+
+def upper_posdiag(U):
+    n = len(U)
+    for i in range(n):
+        if len(U[i]) != n:
+            return f"row {i} has length {len(U[i])} in a {n}x{n} factor"
+        for j in range(i):
+            if F(U[i][j]) != 0:
+                return f"U[{i},{j}] = {float(F(U[i][j]))!r} below the diagonal"
+        if F(U[i][i]) <= 0:
+            return f"diagonal U[{i},{i}] = {float(F(U[i][i]))!r} is not positive"
+    return None
+
+
+def gram_matches(U, M, ops, what):
+    """U'U == M (Fractions) to CHOL_ORACLE * max|M| * (ops + 1); None or a description"""
+    n = len(M)
+    if len(U) != n:
+        return f"{what}: factor is {len(U)}x{len(U)} for a {n}x{n} matrix"
+    G, s2 = gram_exact(U)
+    scale = max([abs(x) for r in M for x in r] + [F(1, 2**40)])
+    tol = CHOL_ORACLE * scale * (ops + 1)
+    tol_i = (tol.numerator << s2) // tol.denominator
+    for i in range(n):
+        for j in range(n):
+            m = F(M[i][j])
+            mi = (m.numerator << s2) // m.denominator if _p2(m.denominator) <= s2 else None
+            d = abs(G[i][j] - mi) if mi is not None else abs(F(G[i][j], 1 << s2) - m) * (1 << s2)
+            if d > tol_i:
+                return (f"{what}: (U'U)[{i},{j}] = {float(F(G[i][j], 1 << s2))!r} but the matrix entry is "
+                        f"{float(m)!r} (tol {float(tol):.3e})")
+    return None
+
+
+def chol_tol(M):
+    """relative tolerance float-vs-float / float-vs-exact for quantities computed through a factor of M"""
+    if not M:
+        return CHOL_REL
+    c = float(np.linalg.cond(np_mat(M)))
+    if not np.isfinite(c):
+        return None
+    return max(CHOL_REL, F(64 * c * 2.0 ** -53))
+
+
+def chol_R(rng, n, wide=True):
+    """dyadic upper-triangular n x n with positive diagonal (steps of 1/4)"""
+    R = [[F(0)] * n for _ in range(n)]
+    dens = rng.choice([1.0, 0.7, 0.4])
+    lim = 8 if (wide and n <= 8) else 4
+    for i in range(n):
+        R[i][i] = F(rng.randint(4, 16), 4)
+        for j in range(i + 1, n):
+            if rng.random() < dens:
+                R[i][j] = F(rng.randint(-lim, lim), 4)
+    return R
+
+
+def gram_fr(R):
+    n = len(R)
+    return [[sum((R[k][i] * R[k][j] for k in range(n)), F(0)) for j in range(n)] for i in range(n)]
+
+
+def spd_from_R(R, perm):
+    """A with A[perm[a]][perm[b]] = (R'R)[a][b]: inserting perm[0], perm[1], ... meets only rational roots"""
+    n = len(R)
+    G = gram_fr(R)
+    A = [[F(0)] * n for _ in range(n)]
+    for a in range(n):
+        for b in range(n):
+            A[perm[a]][perm[b]] = G[a][b]
+    return A
+
+
+def np_delete_positions(P, dels):
+    ds = set(int(d) for d in dels)
+    return [v for k, v in enumerate(P) if k not in ds]
 
 # ------------------------------------------------------------------------------------------------
 # generators of systems
